@@ -161,3 +161,57 @@ def c07_scope(rng, depth, names):
 
 def c07_program(rng):
     return c07_scope(rng, rng.choice([0, 1, 2]), [])
+
+# ---------------------------------------------------------------- systematic small scope: every wrapper x every leaf x position
+def sys_leaves():
+    L = [A.Alias(a) for a in ["Byte", "Int16ub", "Int16sl", "Int24ub", "Int32ul", "Int8sb", "Float32b", "Float64l", "Half"]]
+    L += [A.BytesInteger(3, signed=True, swapped=True), A.VarInt, A.ZigZag, A.Flag, A.Bytes(1), A.Bytes(3),
+          A.PaddedString(4, "utf8"), A.PaddedString(6, "utf_16_le"), A.PascalString(A.Alias("Byte"), "utf8"), A.PascalString(A.VarInt, "utf_16_be"),
+          A.CString("utf8"), A.CString("utf_16_le"), A.Const(b"\x01\x02\x03"), A.Const(7, A.Alias("Int16ub")),
+          A.Enum(A.Alias("Byte"), one=1, two=2), A.FlagsEnum(A.Alias("Byte"), a=1, b=2, c=0x80), A.Mapping(A.Alias("Byte"), [("x", 0), ("y", 1)]),
+          A.Default(A.Alias("Byte"), 7), A.Default(A.Alias("Int16ub"), 0x8000), A.OneOf(A.Alias("Byte"), [0, 1, 2, 3]),
+          A.Struct(A.Renamed("n", A.Alias("Byte")), A.Renamed("d", A.Bytes(A.T("n")))),
+          A.Struct(A.Renamed("n", A.Rebuild(A.Alias("Byte"), A.Func("len", A.T("d")))), A.Renamed("d", A.Bytes(A.T("n")))),
+          A.Sequence(A.Renamed("v", A.Default(A.Alias("Byte"), 2)), A.Renamed("b", A.IfThenElse(A.Bin("==", A.T("v"), A.C(2)), A.Alias("Int16ub"), A.Alias("Byte")))),
+          A.BitStruct(A.Renamed("a", A.BitsInteger(3)), A.Renamed("b", A.BitsInteger(5, signed=True))),
+          A.BitStruct(A.Renamed("a", A.Alias("Nibble")), A.Renamed("b", A.BitsInteger(12)), A.Renamed("c", A.BitsInteger(16, signed=True, swapped=True))),
+          A.Computed(A.C(5)), A.Pass, A.Padding(2), A.Tell]
+    return L
+
+def sys_wrappers():
+    W = [lambda x: x,
+         lambda x: A.Array(2, x), lambda x: A.Array(A.T("_params", "k"), x), lambda x: A.PrefixedArray(A.Alias("Byte"), x), lambda x: A.PrefixedArray(A.VarInt, x),
+         lambda x: A.Prefixed(A.Alias("Byte"), x), lambda x: A.Prefixed(A.Alias("Int16ul"), x, incl=True), lambda x: A.Prefixed(A.VarInt, x),
+         lambda x: A.FixedSized(12, x), lambda x: A.Padded(12, x), lambda x: A.Padded(12, x, pat=0x20),
+         lambda x: A.Aligned(4, x), lambda x: A.Aligned(3, x, pat=0xaa), lambda x: A.Aligned(8, x), lambda x: A.AlignedStruct(4, A.Renamed("p", x), A.Renamed("q", A.Alias("Byte"))),
+         lambda x: A.Optional(x), lambda x: A.Select(x, A.Alias("Int32ub")), lambda x: A.IfThenElse(A.Bin(">", A.T("_params", "k"), A.C(1)), x, A.Pass),
+         lambda x: A.If(A.T("_params", "k"), x), lambda x: A.Switch(A.T("_params", "k"), [(1, x), (2, A.Alias("Byte"))], default=x),
+         lambda x: A.NullTerminated(x, term=b"\xfe"), lambda x: A.NullTerminated(x, term=b"\xfe\xfe", include=False),
+         lambda x: A.RawCopy(x), lambda x: A.Hex(x), lambda x: A.HexDump(x), lambda x: A.Struct(A.Renamed("i", x)), lambda x: A.Sequence(x, A.Alias("Byte")),
+         lambda x: A.FocusedSeq("v", A.Const(b"\x55"), A.Renamed("v", x)), lambda x: A.Default(x, None) if False else A.Struct(A.Renamed("v", x), A.Renamed("w", A.Computed(A.T("v")))),
+         lambda x: A.GreedyRange(x), lambda x: A.RepeatUntil(A.Bin("==", A.Func("len", A.Lst), A.C(2)) if False else A.C(True), x),
+         lambda x: A.ProcessXor(0x5a, A.Prefixed(A.Alias("Byte"), x)) if False else A.Prefixed(A.Alias("Byte"), A.ProcessXor(0x5a, x)),
+         lambda x: A.Prefixed(A.Alias("Byte"), A.ProcessXor(b"\x01\x02\x03", x)), lambda x: A.Prefixed(A.Alias("Byte"), A.ProcessRotateLeft(3, 1, x)),
+         lambda x: A.Prefixed(A.Alias("Byte"), A.NullStripped(x, pad=b"\xfd")),
+         ]
+    return W
+
+def systematic(rng, frac=1.0):
+    """Struct(h: Bytes(hlen), x: W(L), t: Byte) for every wrapper W, leaf L and header length -- so that every class is met
+    behind an odd-sized neighbour and in front of another member"""
+    leaves = sys_leaves()
+    out = []
+    for wi, w in enumerate(sys_wrappers()):
+        for li, l in enumerate(leaves):
+            if rng.random() > frac:
+                continue
+            core = w(l)
+            hl = rng.choice([0, 1, 1, 2, 3, 5])
+            tail = rng.choice([A.Alias("Byte"), A.Alias("Int16ub"), A.GreedyBytes])
+            greedy = core["k"] == "GreedyRange"
+            if greedy:
+                prog = A.Struct(A.Renamed("h", A.Bytes(hl)), A.Renamed("x", core))
+            else:
+                prog = A.Struct(A.Renamed("h", A.Bytes(hl)), A.Renamed("x", core), A.Renamed("t", tail))
+            out.append(prog)
+    return out
